@@ -94,11 +94,11 @@ def ok_prog(status=200, n=5, read="all", kind="bytes", **kw):
 def seg_variants(rnd, total, boundaries, quick):
     """Ways of cutting `total` wire bytes into read segments."""
     out = [[total], [1] * total if total <= 600 else None]
-    cuts = sorted(set(b + d for b in boundaries for d in (-2, -1, 0, 1, 2) if 0 < b + d < total))
+    cuts = sorted(set(b + d for b in boundaries for d in (-3, -2, -1, 0, 1, 2, 3) if 0 < b + d < total))
     if not quick:
         cuts = sorted(set(cuts) | set(range(1, min(total, 400))))
-    elif len(cuts) > 40:
-        cuts = sorted(rnd.sample(cuts, 40))
+    elif len(cuts) > 60:
+        cuts = sorted(rnd.sample(cuts, 60))
     for c in cuts:
         out.append([c, total - c])
     for _ in range(3 if quick else 10):
@@ -114,7 +114,10 @@ def framing_family(rnd, quick):
     goods = [{"m": "POST", "framing": {"k": "cl", "n": 5}}, {"m": "POST", "framing": {"k": "chunked", "chunks": [3, 4], "ext": True}},
              {"m": "GET"}, {"m": "POST", "framing": {"k": "chunked", "chunks": [], "te": "Chunked"}},
              {"m": "PUT", "framing": {"k": "chunked", "chunks": [17], "ext": ";a=\"b;c\""}}, {"m": "POST", "ver": 10, "framing": {"k": "cl", "n": 2}},
-             {"m": "POST", "framing": {"k": "cl", "n": 0}}, {"m": "POST", "framing": {"k": "chunked", "chunks": [1, 1, 1], "te": " chunked"}}]
+             {"m": "POST", "framing": {"k": "cl", "n": 0}}, {"m": "POST", "framing": {"k": "chunked", "chunks": [1, 1, 1], "te": " chunked"}},
+             {"m": "POST", "framing": {"k": "chunked", "chunks": [0x100]}}, {"m": "POST", "framing": {"k": "chunked", "chunks": [0xabc, 0x10]}},
+             {"m": "PUT", "framing": {"k": "chunked", "chunks": [0x1000, 0x123], "ext": ";q"}}, {"m": "POST", "framing": {"k": "chunked", "chunks": [0x10001]}},
+             {"m": "POST", "framing": {"k": "cl", "n": 300}}]
     bads = [{"m": "POST", "framing": {"k": c}} for c in BAD_HEAD] + \
            [{"m": "POST", "framing": {"k": "badchunk:" + c, "good": g}} for c in BAD_CHUNK for g in ([], [3])] + \
            [{"m": "POST", "ver": 10, "framing": {"k": "te10"}}]
@@ -124,10 +127,13 @@ def framing_family(rnd, quick):
             pre = [dict(rnd.choice(goods)) for _ in range(pos - 1)]
             post = [dict(rnd.choice(goods))]
             scen.append(pre + [dict(b)] + post)
-    for _ in range(6 if quick else 40):     # well-formed pipelines
-        scen.append([dict(rnd.choice(goods)) for _ in range(rnd.randint(1, 4))])
+    wf = []
+    for _ in range(10 if quick else 60):     # well-formed pipelines
+        wf.append([dict(rnd.choice(goods)) for _ in range(rnd.randint(1, 4))])
+    wf += [[dict(g)] for g in goods]         # and every well-formed framing alone
     if quick:
-        scen = rnd.sample(scen, 40)
+        scen = rnd.sample(scen, 30)
+    scen += wf
     for reqs in scen:
         progs = [ok_prog() for _ in reqs]
         base = h1gen.assemble(reqs, progs, epilogue=False)
@@ -136,6 +142,10 @@ def framing_family(rnd, quick):
             bounds += [g["start"], g["start"] + g["headlen"], g["end"]]
             if g["badoff"] >= 0:
                 bounds.append(g["start"] + g["badoff"])
+        off = 0
+        for part in base["wire"]:        # every part boundary: chunk-size lines, chunk data, CRLFs
+            bounds.append(off)
+            off += len(part["s"]) if "s" in part else (part["body"][2] if "body" in part else part["fill"][1])
         for segs in seg_variants(rnd, base["total"], bounds, quick):
             c = h1gen.assemble(reqs, progs, steps=[{"seg": s} for s in segs], epilogue=True)
             c["origin"] = "framing-family"
